@@ -340,7 +340,7 @@ package vuego
 
 //@ func (v *Vue) evalElseIfChain(ctx, node, nodes, depth) (res, skip, err)
 //@   requires C11.depth.chain: depth <= maxEvalDepth
-//@   decreases maxEvalDepth + 10 - depth, 1
+//@   decreases maxEvalDepth + 10 - depth, 2
 //@   requires C03.chain.head: len(nodes) >= 1 && nodes[0] == node
 //@   requires C03.chain.vif: hasAttrUpTo(node.Attr, "v-if", len(node.Attr))
 //@   requires nonnil.nodes: forall k int :: 0 <= k && k < len(nodes) ==> nodes[k] != nil
@@ -362,7 +362,7 @@ package vuego
 //@   assert C01.eval.once: false at "never call evalAttributes"
 //@   assert C01.eval.once.html: false at "never call evalVHtml"
 //@   requires C11.depth.vfor: depth <= maxEvalDepth
-//@   decreases maxEvalDepth + 10 - depth, 1
+//@   decreases maxEvalDepth + 10 - depth, 2
 //@   requires C04.head: len(nodes) >= 1
 //@   ensures C04.balance: BALANCED(ctx)
 //@   ensures C04.skip.range: 0 <= skip && skip < len(nodes)
@@ -374,9 +374,10 @@ package vuego
 //@ func (v *Vue) evaluate(ctx, nodes, depth) (res, err)
 //@   assert C10+C14.attrs.private: fresh($arg1) && $arg1 != nil && (len($arg1.Attr) == 0 || fresh($arg1.Attr)) at "call evalVHtml"
 //@   assert C10+C14.attrs.private.eval: fresh($arg1) && $arg1 != nil at "call evalAttributes"
-//@   decreases maxEvalDepth + 10 - depth, 2
+//@   decreases maxEvalDepth + 10 - depth, 3
 //@   ensures C04+C05.balance: BALANCED(ctx)
 //@   assert C16.marked: hasAttrUpTo(node.Attr, "v-once", len(node.Attr)) && !hasAttrUpTo(node.Attr, "v-for", len(node.Attr)) ==> ctx.seen[getAttrFrom(node.Attr, "v-once-id", 0)] at "helpers.HasAttr(node, \"v-pre\")"
+//@   assert C03+C06.slot.chain.first: !hasAttrUpTo(node.Attr, "v-if", len(node.Attr)) && !hasAttrUpTo(node.Attr, "v-else-if", len(node.Attr)) && !hasAttrUpTo(node.Attr, "v-else", len(node.Attr)) at "call evalSlot"
 //@   loop 0 invariant C03+C04.loop.bounds: 0 <= i && i <= len(nodes)
 //@   loop 0 invariant C04+C05.balance.loop: BALANCED(ctx)
 
@@ -612,7 +613,7 @@ package vuego
 //@   ensures C04.foreach.balance: len(s.stack) == old(len(s.stack)) && forall bi int :: 0 <= bi && bi < len(s.stack) ==> s.stack[bi] == old(s.stack[bi])
 
 //@ func (v *Vue) evalFor$1(index, value) (err)
-//@   decreases maxEvalDepth + 10 - depth, 4
+//@   decreases maxEvalDepth + 10 - depth, 5
 //@   holds ctx.stack
 //@   assert C04.instance.fresh: fresh(iterNode) && iterNode != nil at "v.evaluate(ctx, []*html.Node{iterNode}, depth)"
 //@   assert C04.bind.value: len(vars) >= 1 && (vars[len(vars) - 1] in ctx.stack.stack[len(ctx.stack.stack) - 1]) && ctx.stack.stack[len(ctx.stack.stack) - 1][vars[len(vars) - 1]] == value at "v.evaluate(ctx, []*html.Node{iterNode}, depth)"
@@ -635,14 +636,15 @@ package vuego
 
 //@ func (v *Vue) evaluateChildren(ctx, node, depth) (res, err)
 //@   requires C11.depth.children: depth <= maxEvalDepth + 2
-//@   decreases maxEvalDepth + 10 - depth, 3
+//@   decreases maxEvalDepth + 10 - depth, 4
 //@   ensures C04+C05.balance: BALANCED(ctx)
 
 //@ func (v *Vue) evaluateNodeAsElement(ctx, node, depth) (res, err)
 //@   assert C01.eval.once: $arg1 == newNode at "call evalAttributes"
+//@   assert C04+C06.slot.filled: node.Data != "slot" at "call evalAttributes"
 //@   assert C01.eval.once.html: $arg1 == newNode at "call evalVHtml"
 //@   requires C11.depth.element: depth <= maxEvalDepth
-//@   decreases maxEvalDepth + 10 - depth, 0
+//@   decreases maxEvalDepth + 10 - depth, 1
 //@   holds ctx.stack
 //@   ensures C04+C05.balance: BALANCED(ctx)
 //@   loop 0 invariant C04.balance.loop: BALANCED(ctx)
@@ -693,7 +695,7 @@ package vuego
 
 //@ func (v *Vue) evalSlot(ctx, node, slotScope, depth) (res, err)
 //@   requires C11.depth.slot: depth <= maxEvalDepth
-//@   decreases maxEvalDepth + 10 - depth, 1
+//@   decreases maxEvalDepth + 10 - depth, 0
 //@   requires nilable.slotScope: true
 //@   holds ctx.stack
 //@   assert C06.supplied.fields: slotContent.Props == old(slotContent.Props) && slotContent.TemplateNode == old(slotContent.TemplateNode) at "v.evaluateChildren(outer, slotContent.TemplateNode, depth+1)"
